@@ -105,6 +105,19 @@ def extra_configs(prop, tier, seed):
     if prop == 'C12':
         for c in [c for c in runlevel.gen_configs('thorough', seed + 77) if c['kind'] == 'GP'][:40 if tier == 'quick' else 120]:
             extra.append(dict(c, hook='observer'))
+        # few terminals, every operator very active: freshly grown branches (still aliasing the space's terminals) get
+        # grafted next to older, detached copies of the same terminal — a copy of such a tree must keep every value
+        rng2 = _random.Random(seed * 47 + 29)
+        for j, c in enumerate([c for c in runlevel.gen_configs('thorough', seed + 79) if c['kind'] == 'GP'][:10 if tier == 'quick' else 40]):
+            extra.append(dict(c, hook='observer', n_terminals=1 + j % 2, n_agents=20, n_iter=8, min_depth=1, max_depth=3,
+                              functions=list(runlevel.FUNCSETS[[0, 1, 2, 5][j % 4]]), objective=rng2.choice(['sphere', 'boundary', 'negative']),
+                              hyper={'p_reproduction': 0.25, 'p_mutation': 0.6, 'p_crossover': 0.6, 'prunning_ratio': 0.0}))
+        # the same GP object has run a task on a tree space with other bounds before
+        for j, c in enumerate([c for c in runlevel.gen_configs('thorough', seed + 80) if c['kind'] == 'GP'][:4 if tier == 'quick' else 16]):
+            w = [abs(u - l) + 1.0 for l, u in zip(c['lb'], c['ub'])]
+            extra.append(dict(c, hook='observer', n_iter=max(c['n_iter'], 3),
+                              prior=dict(n_iter=2, seed=c['seed'] + 1, lb=[u + 2 * w_ for u, w_ in zip(c['ub'], w)],
+                                         ub=[u + 3 * w_ for u, w_ in zip(c['ub'], w)])))
         # trees that overflow to NaN (inf - inf, 0 * inf): the agent's position must still be its tree's value
         # limited to the bounds (NaN stays NaN); without selection operators such runs complete (cf. K4)
         rng = _random.Random(seed * 23 + 9)
@@ -188,6 +201,12 @@ def extra_configs(prop, tier, seed):
                 c['lb'], c['ub'] = runlevel.make_box(rng, 'wide', c['n_vars'])
                 extra.append(c)
     if prop == 'C03':
+        for j, c in enumerate([c for c in runlevel.gen_configs('thorough', seed + 78) if c['kind'] == 'GP'][:6 if tier == 'quick' else 24]):
+            nv = c['n_vars']
+            extra.append(dict(c, hook='observer', functions=[['EXP', 'COS', 'SUM'], ['EXP', 'SIN', 'SUM', 'MUL'], ['EXP', 'SUB', 'COS', 'SUM']][j % 3],
+                              min_depth=2, max_depth=6, n_agents=20, n_terminals=2, n_iter=2, box='wide', lb=[0.0] * nv, ub=[10.0] * nv,
+                              objective='sphere', adv=0.0,
+                              hyper={'p_reproduction': 0.0, 'p_mutation': 0.0 if j % 2 else 0.3, 'p_crossover': 0.0, 'prunning_ratio': 0.0}))
         # every optimizer at the smallest populations it accepts (1, 2, 3 agents; WCA from its minimum), on plain
         # and on plateau / constant objectives: boundary sizes are where index draws and loops degenerate
         rng = _random.Random(seed * 29 + 13)
@@ -219,9 +238,13 @@ def extra_configs(prop, tier, seed):
                 extra.append(c)
         for kind in runlevel.KINDS:
             ks = [c for c in pool if c['kind'] == kind][10:12 if tier == 'quick' else 16]
+            if kind in ('IHS', 'AIWPSO'):
+                ks = [c for c in pool if c['kind'] == kind][10:16 if tier == 'quick' else 30]
             for c in ks:
                 h = runlevel.hyper_sample(rng, kind, c['n_agents'], 'random')
                 c = dict(c, hook='observer', hyper=h, hyper_post=runlevel.hyper_post_sample(rng, kind, c['n_agents'], h))
+                if kind in ('IHS', 'AIWPSO'):
+                    c['n_iter'] = rng.choice([3, 6])
                 extra.append(c)
     if prop == 'C07':
         # replacements by copy are rare events (ABC scout accepted, HS replace-worst, BHA exchange, GP
@@ -261,6 +284,46 @@ def extra_configs(prop, tier, seed):
     return extra
 
 
+def repeated_start_issues(kinds=('PSO', 'HC', 'ABC', 'SA')):
+    """the same Opytimizer started several times, with and without a hook that takes (scripted) time: every start
+    adds exactly one non-negative elapsed-time entry to the history it returns"""
+    import lib
+    L = lib.load()
+    np = L['np']
+    import opytimizer.opytimizer as om
+    issues = []
+    real = om.time.time
+    for kind in kinds:
+        np.random.seed(7)
+        sp = L['SearchSpace'](n_agents=3, n_variables=2, n_iterations=2, lower_bound=[-1, -1], upper_bound=[1, 1])
+        task = L['Opytimizer'](space=sp, optimizer=L['kinds'][kind](), function=L['Function'](pointer=lambda x: float(np.sum(x ** 2))))
+        tick = [1000.0]
+
+        def clock():
+            tick[0] += 1.0
+            return tick[0]
+
+        def slow_hook(o, s_, f):
+            for _ in range(5):
+                om.time.time()
+        om.time.time = clock
+        try:
+            hs = [task.start(pre_evaluation_hook=slow_hook), task.start(), task.start(pre_evaluation_hook=slow_hook), task.start()]
+        except Exception as ex:
+            issues.append(dict(what='repeated-start-raised', layer='oracle', cfg_kind=kind, error=repr(ex)[:120],
+                               replay=dict(how='repeated-start', kind=kind)))
+            continue
+        finally:
+            om.time.time = real
+        for j, h in enumerate(hs):
+            tm = getattr(h, 'time', None)
+            if not (isinstance(tm, list) and len(tm) == 1 and isinstance(tm[0], (int, float)) and tm[0] >= 0):
+                issues.append(dict(what='time', layer='oracle', cfg_kind=kind, start=j, value=repr(tm)[:60],
+                                   replay=dict(how='repeated-start', kind=kind)))
+                break
+    return issues
+
+
 def check(ctx):
     prop, tier, seed = ctx['prop'], ctx['tier'], ctx['seed']
     res = runpass.cached_pass(tier, seed)
@@ -275,6 +338,8 @@ def check(ctx):
         finally:
             drv.close()
     issues = collect(prop, res)
+    if prop == 'C04':
+        issues += repeated_start_issues()
     runs = res['runs']
     nt = [r for r in runs if nontrivial(prop, r)]
     distinct = len({json.dumps(r['cfg'], sort_keys=True) for r in nt})
@@ -384,6 +449,8 @@ def search(ctx, corr_broken, broken):
 
 
 def replay(prop, payload):
+    if payload.get('how') == 'repeated-start':
+        return bool(repeated_start_issues((payload['kind'],)))
     drv = common.Driver()
     try:
         r = runpass.analyse_run(payload['cfg'], drv, props=[prop])
